@@ -57,10 +57,12 @@ def run_engine_checked(ctx, binary, test, payload, timeout=1500):
     st = res.get("stats", {})
     if "panic:" in res.get("_stdout", "") or "DATA RACE" in res.get("_stdout", ""):
         raise vlib.Broken("engine %s panicked:\n%s" % (test, res["_stdout"][-3000:]))
-    if st.get("harness_timeouts") and not res.get("divergences"):
-        raise vlib.Broken("%s: an awaited event of the real server did not come within the harness deadline "
-                          "(harness timeout, not a verdict): %s" % (test, res.get("samples")))
     ctx.absorb(res, "ws", test)
+    if st.get("harness_timeouts") and not res.get("divergences"):
+        # never a verdict; but it must not hide a divergence another part has positively observed
+        ctx.g04_broken = getattr(ctx, "g04_broken", []) + [
+            "%s: an awaited event of the real server did not come within the harness deadline (harness timeout, "
+            "not a verdict): %s" % (test, res.get("samples"))]
     return res
 
 
@@ -72,6 +74,8 @@ def run(ctx):
         with open(ctx.replay) as f:
             rp = json.load(f)
         run_engine_checked(ctx, binary, rp["test"], rp["input"])
+        if getattr(ctx, "g04_broken", None) and not ctx.violations:
+            raise vlib.Broken("; ".join(ctx.g04_broken))
         return ctx.finish("model_checking", "replay of one recorded behaviour / round")
 
     thorough = not ctx.quick()
@@ -106,7 +110,7 @@ def run(ctx):
     # ---- binding 1: replay of simulated behaviours
     behaviours = behaviours_of(ctx, 12 if thorough else 2, 40000 if thorough else 12000)
     res = run_engine_checked(ctx, binary, "TestWsReplay", {"behaviours": behaviours, "seed": ctx.seed})
-    if res.get("replayed", 0) < 0.9 * len(behaviours) and not res.get("divergences"):
+    if res.get("replayed", 0) < 0.9 * len(behaviours) and not res.get("divergences") and not getattr(ctx, "g04_broken", None):
         raise vlib.Broken("engine replayed too little: %s of %s" % (res.get("replayed"), len(behaviours)))
     # ---- binding 2: free-running writers, monitor = frame integrity + ordering promises
     run_engine_checked(ctx, binary, "TestWsStress", {"seed": ctx.seed, "conns": 6 if thorough else 4,
@@ -114,6 +118,9 @@ def run(ctx):
     # ---- binding 3: the races the scheduler cannot steer
     run_engine_checked(ctx, binary, "TestWsDirected", {"seed": ctx.seed, "rounds": 60 if thorough else 10})
 
+    if getattr(ctx, "g04_broken", None) and not ctx.violations:
+        raise vlib.Broken("; ".join(ctx.g04_broken))
+    ctx.coverage["harness_parts_timed_out"] = len(getattr(ctx, "g04_broken", []))
     ctx.coverage["simulated_behaviours"] = len(behaviours)
     ctx.coverage["exhaustive"] = False
     ctx.assumptions += [
